@@ -1,3 +1,4 @@
+import Ebu.Spec.Flow
 import Ebu.Spec.Bus
 import Ebu.Proofs.BusObs
 import Ebu.Proofs.BusOtel
@@ -87,5 +88,19 @@ theorem counters_truthful {R : Type} (I : RegImpl R) (cfg : Config) (fuel : Nat)
     s.persistErrors = (trueCounts tr).2.2.2 ∧ (cfg.panicH = true → s.handlerErrors = (trueCounts tr).2.1) ∧
     s.started = s.publishes + s.handlerRuns + s.persistAttempts :=
   Ebu.Bus.counters_truthful I cfg fuel faults prog hobs
+
+/-! ### obligations on the control flow of the CURRENT source (`Ebu/Generated/Flow.lean`, regenerated from /repo on every run) -/
+
+/-- OBLIGATION: `OnPublishStart` comes first (its context is the one hooks, persistence and handlers get) -/
+theorem flow_publish_callbacks : Ebu.Flow.publishPrelude = true := by decide +kernel
+
+/-- OBLIGATION: `OnPublishComplete` is the last thing `PublishContext` does, on every path -/
+theorem flow_publish_complete_last : Ebu.Flow.publishEpilogue = true := by decide +kernel
+
+/-- OBLIGATION: `OnHandlerStart` once before the call, `OnHandlerComplete` once inside the recovering `defer`, whether or not something was recovered -/
+theorem flow_handler_callbacks : Ebu.Flow.handlerBracket = true := by decide +kernel
+
+/-- OBLIGATION: `OnPersistStart` before and `OnPersistComplete` after the one append, once each -/
+theorem flow_persist_callbacks : Ebu.Flow.persistShape = true := by decide +kernel
 
 end Ebu.Props.C20
